@@ -62,6 +62,22 @@ var c20Pool = []c20Line{
 	{"expr-concat", "expr", "\"a\" + \"b\";"},
 	{"expr-numeq", "expr", "1 == 1;"},
 	{"expr-or", "expr", KwFalse + " " + KwOr + " 3;"},
+	// assignments to the names of built-ins (allowed: they are ordinary globals of that line's interpreter)
+	{"assign-builtin-len", "assign-builtin", FnLen + " = 0;"},
+	{"assign-builtin-max", "assign-builtin", FnMax + " = nil;"},
+	{"assign-builtin-fail", "assign-builtin-rt", FnLen + " = 0; " + FnLen + "([1]);"},
+	{"assign-builtin-keys", "assign-builtin", FnKeys + " = \"x\"; " + KwPrint + " " + FnKeys + ";"},
+	{"assign-builtin-input", "assign-builtin", FnInput + " = 1;"},
+	{"use-max", "print", KwPrint + " " + FnMax + "(2, 9);"},
+	{"use-keys", "print", KwPrint + " " + FnKeys + "({a: 1});"},
+	// strings with backslashes (a backslash is an ordinary character)
+	{"str-backslash", "print", KwPrint + " \"a\\b\";"},
+	{"str-trailing-backslash", "print", KwPrint + " \"q\\\";"},
+	{"lex-unterminated-backslash", "lex", KwPrint + " \"C:\\tmp\\"},
+	{"lex-backslash", "lex", "1 \\ 2;"},
+	// objects and arrays mutated on one line
+	{"multi-object", "multi", KwVar + " o = {a: 1}; o.b = 2; " + KwPrint + " " + FnKeys + "(o);"},
+	{"multi-array", "multi", KwVar + " a = [1]; a = " + FnAppend + "(a, 2); " + KwPrint + " a;"},
 	// silent statements
 	{"silent-var", "silent", KwVar + " y = 5;"},
 	{"silent-block", "silent", "{ }"},
@@ -180,7 +196,15 @@ func c20Systematic(tier string) []*Case {
 		out = append(out, cs)
 	}
 	// end of input ends the session with status 0, also right after a failing line without newline
-	for _, l := range []c20Line{c20Pool[0], c20Pool[40], c20Pool[45], c20Pool[52]} {
+	var eofLines []c20Line
+	seenClass := map[string]bool{}
+	for _, l := range c20Pool {
+		if !seenClass[l.class] {
+			seenClass[l.class] = true
+			eofLines = append(eofLines, l)
+		}
+	}
+	for _, l := range eofLines {
 		c := replCfg(l.text) // no trailing newline, no marker
 		cs := &Case{Prop: "C20", Kind: "eof", Sig: "eof-after:" + l.class, Program: l.text, Runs: []Run{{Role: "nonl", Cfg: c}}}
 		cs.Aux = &Aux{C20: &C20Expect{}}
@@ -323,9 +347,9 @@ func init() {
 		Level:       "exploration",
 		Systematic:  c20Systematic,
 		Random:      c20Random,
-		RandomCount: func(tier string) int { return map[string]int{"quick": 2500, "thorough": 150000}[tier] },
+		RandomCount: func(tier string) int { return map[string]int{"quick": 2500, "thorough": 200000}[tier] },
 		Eval:        c20Eval,
-		Rule: "sessions = every pool line alone, every ordered pair of the 67 pool lines (valid statements, bare expressions, silent statements, lexical / syntax / runtime errors incl. errors inside loops, blocks and functions on one line), swept completely; plus seeded random sessions of 2..12 lines under 1..3 stdin delivery schedules, some with EIO injected mid-session. Response i = stdout+stderr between marker lines; oracle = the same line's response as first line of a fresh session. " +
+		Rule: "sessions = every pool line alone, every ordered pair of the pool lines (about 80) (valid statements, bare expressions, silent statements, lexical / syntax / runtime errors incl. errors inside loops, blocks and functions on one line), swept completely; plus seeded random sessions of 2..12 lines under 1..3 stdin delivery schedules, some with EIO injected mid-session. Response i = stdout+stderr between marker lines; oracle = the same line's response as first line of a fresh session. " +
 			"distinct_nontrivial counts distinct sequences of line classes among sessions that contain at least one failing line followed by at least one judged line.",
 		DistinctSet: "c20_class_sequences",
 		Assumptions: []string{
